@@ -5,6 +5,7 @@ import (
 	"fmt"
 	"os"
 	"path/filepath"
+	"sort"
 	"strings"
 
 	"github.com/KevoDB/kevo/pkg/engine"
@@ -61,6 +62,13 @@ func (o Op) String() string {
 // KeySpace is the set of keys a program draws from.
 type KeySpace struct {
 	Keys [][]byte
+	// Locality: picks come from a window of the sorted key space that moves every few
+	// picks, so that flushed files cover different, partly disjoint key ranges
+	Locality bool
+	sorted   [][]byte
+	winStart int
+	winLen   int
+	winLeft  int
 }
 
 // GenKeySpace mixes key classes: ASCII, binary with 0x00/0xFF, long shared
@@ -93,6 +101,21 @@ func GenKeySpace(r *core.Rand, n int) *KeySpace {
 }
 
 func (ks *KeySpace) Pick(r *core.Rand) []byte {
+	if ks.Locality {
+		if ks.sorted == nil {
+			ks.sorted = append([][]byte{}, ks.Keys...)
+			sort.Slice(ks.sorted, func(i, j int) bool { return bytes.Compare(ks.sorted[i], ks.sorted[j]) < 0 })
+		}
+		if ks.winLeft <= 0 {
+			ks.winLen = r.Range(1, (len(ks.sorted)+2)/3)
+			ks.winStart = r.Intn(len(ks.sorted) - ks.winLen + 1)
+			ks.winLeft = r.Range(3, 25)
+		}
+		ks.winLeft--
+		if r.Chance(90) {
+			return ks.sorted[ks.winStart+r.Intn(ks.winLen)]
+		}
+	}
 	// skew: a quarter of the keys gets most of the traffic, so keys are overwritten often
 	if r.Chance(60) {
 		return ks.Keys[r.Intn((len(ks.Keys)+3)/4)]
@@ -194,7 +217,32 @@ func GenProgram(r *core.Rand, ks *KeySpace, tagPrefix string, o GenOpts) []Op {
 			if r.Chance(10) {
 				max = 40
 			}
-			prog = append(prog, Op{Kind: "tx", Sub: sub(max, true), Commit: r.Chance(75)})
+			body := sub(max, true)
+			if r.Chance(8) {
+				// a commit larger than the 64KB log buffer: a few large values or many small ones
+				if r.Bool() {
+					for i, m := 0, r.Range(2, 4); i < m; i++ {
+						n++
+						v := []byte(fmt.Sprintf("%s/%d|", tagPrefix, n))
+						for l := r.Range(20000, 42000); len(v) < l; {
+							v = append(v, byte('A'+len(v)%26))
+						}
+						body = append(body, Op{Kind: "put", Key: ks.Pick(r), Val: v})
+					}
+				} else {
+					for i, m := 0, r.Range(150, 700); i < m; i++ {
+						n++
+						v := []byte(fmt.Sprintf("%s/%d|", tagPrefix, n))
+						for l := r.Range(80, 500); len(v) < l; {
+							v = append(v, byte('A'+len(v)%26))
+						}
+						// distinct keys: the transaction buffer keeps one operation per key
+						k := append(append([]byte{}, ks.Pick(r)...), []byte(fmt.Sprintf("~%03d", i))...)
+						body = append(body, Op{Kind: "put", Key: k, Val: v})
+					}
+				}
+			}
+			prog = append(prog, Op{Kind: "tx", Sub: body, Commit: r.Chance(75)})
 		case 4:
 			// batch with distinct keys (an explicit batch has no defined order among equal keys)
 			s := sub(6, false)
@@ -257,6 +305,8 @@ type Exec struct {
 	CheckSeq   bool                    // monitor storage_last_sequence / next sequence monotonicity (C08)
 	ScanCheck  bool                    // full scans are compared with the model at every full check
 	ScanFn     func(x *Exec, step int) // optional richer scan checker (C05)
+	BeforeOp   func(x *Exec, op Op)    // optional monitor hooks around every op (C12)
+	AfterOp    func(x *Exec, op Op)
 
 	// bookkeeping for violation features
 	lastKind   map[string]string // key -> kind of its latest write
@@ -333,6 +383,9 @@ func (x *Exec) traceTail() string {
 	}
 	return strings.Join(t, "\n")
 }
+
+// Fail records a violation and stops the program.
+func (x *Exec) Fail(class, msg string, key []byte) { x.fail(class, msg, key) }
 
 func (x *Exec) fail(class, msg string, key []byte) {
 	x.Failed = true
@@ -488,6 +541,12 @@ func (x *Exec) Run(prog []Op) {
 		x.Trace = append(x.Trace, fmt.Sprintf("%4d %s", x.Step, op.String()))
 		x.Res.Count("ops", 1)
 		var touched [][]byte
+		if x.BeforeOp != nil {
+			x.BeforeOp(x, op)
+			if x.Failed {
+				return
+			}
+		}
 		switch op.Kind {
 		case "put":
 			kb, vb := append([]byte{}, op.Key...), append([]byte{}, op.Val...)
@@ -645,6 +704,9 @@ func (x *Exec) Run(prog []Op) {
 			if x.ScanFn != nil {
 				x.ScanFn(x, x.Step)
 			}
+		}
+		if x.AfterOp != nil && !x.Failed && x.Eng != nil {
+			x.AfterOp(x, op)
 		}
 		if x.Failed {
 			return
